@@ -84,7 +84,7 @@ def oracle(case, out):
     if t[0] == "CODE":
         c = int(t[2], 16)
         if t[1] == "TYPE":
-            exp = "%s %x" % (tyname(c), c)
+            exp = "%s %x %x" % (tyname(c), c, c)          # also through From<TYPE> for QTYPE and back to u16
         elif t[1] == "CLASS":
             exp = "OK %s %x" % (CLASSES[c], c) if c in CLASSES else "ERR InvalidClass %x" % c
         elif t[1] == "QCLASS":
